@@ -242,10 +242,19 @@ class ST:
             idx = idx[:k] + (slice(None),) * (len(self.shape) - len(idx) + 1) + idx[k + 1:]
         return idx + (slice(None),) * (len(self.shape) - len(idx))
 
+    def __vc_int__(self, I):
+        return _item(I, self)
+
+    def __vc_index__(self, I):
+        return _item(I, self)
+
     def __vc_getitem__(self, I, idx):
-        if isinstance(idx, ST) and idx.dtype == "long":
+        if isinstance(idx, ST) and idx.dtype == "long" and len(idx.shape) > 0:
             return _index_by_tensor(I, self, idx)
         idx = self._norm_idx(idx)
+        # a 0-dim integer tensor used as an index or slice bound stands for its element (torch's __index__)
+        sc = lambda v: v.elem() if (isinstance(v, ST) and len(v.shape) == 0) else v
+        idx = tuple(slice(sc(k.start), sc(k.stop), sc(k.step)) if isinstance(k, slice) else sc(k) for k in idx)
         shape, maps = [], []
         for d, k in enumerate(idx):
             n = self.shape[d]
@@ -562,6 +571,7 @@ def _clamp(I, t, min=None, max=None):
 
 
 METH["clamp_max"] = lambda I, t, m: _clamp(I, t, max=m)
+METH["clamp_"] = _inplace(_clamp)
 
 
 def f_one_hot(I, t, num_classes=-1):
@@ -618,6 +628,7 @@ def _squeeze(I, t, d):
 def _expand(I, t, *sizes):
     if len(sizes) == 1 and isinstance(sizes[0], (tuple, list)):
         sizes = tuple(sizes[0])
+    sizes = tuple(x.elem() if (isinstance(x, ST) and len(x.shape) == 0) else x for x in sizes)
     off = len(sizes) - len(t.shape)
     e = t.elem
 
